@@ -114,6 +114,7 @@ type VC struct {
 	ptrFieldIDs map[string]int
 	implIfaces  map[string]*types.Interface
 	thorough bool
+	thoroughProp string // thorough-tier clauses are active only for the property they are tagged with ("" = all)
 	headLock map[string]int
 }
 
@@ -431,4 +432,16 @@ func (vc *VC) Query(selected map[*Obligation]bool, entry *Node, wantModel bool, 
 		sb.WriteString("(get-model)\n")
 	}
 	return sb.String()
+}
+
+// skipT: a thorough-tier clause (tag T) is left out in the quick tier, and in the thorough tier of a property it is not
+// tagged with (the heavy merge-iterator clauses belong to C05; checking them again under C12 only repeated them).
+func (vc *VC) skipT(tags []string) bool {
+	if !hasTag(tags, "T") {
+		return false
+	}
+	if !vc.thorough {
+		return true
+	}
+	return vc.thoroughProp != "" && !hasTag(tags, vc.thoroughProp)
 }
